@@ -14,7 +14,7 @@ from engine.common import NCPU
 META = {
     'level': 'model_checking',
     'technique': 'stateless preemption-bounded schedule exploration of the real code under a controlled scheduler (iterative context bounding), ASan and TSan variants',
-    'text': 'Every schedule of N threads x K wrapped execve calls with at most B preemptions at synchronisation points is executed on the real library (one process per schedule); '
+    'text': 'Every schedule of N threads x K wrapped execve calls with at most B preemptions at synchronisation points is executed on the real library (one process per schedule); state-hashed passes explore ALL interleavings (no preemption bound) up to equality of (thread positions, mutex model, registry list); '
             'per execution: no deadlock, no sanitizer/TSan report, exactly N*K whole records each carrying only its own thread\'s path, arguments and thread id, thread count within [1,N], '
             'registry empty and mutex free after join, a later lone call sees exactly one thread. A function-entry-granular pass explores preemptions inside lock-free stretches '
             '(filter chain evaluation, message formatting) including a dropping chain.',
@@ -119,8 +119,14 @@ def campaign(ck, v, name, san, fn, cfg, n, k, bound, drop, stats, max_exec=None)
                          {'campaign': name, 'threads': n, 'calls_each': k, 'schedule_prefix': x.prefix, 'preemption_bound': bound, 'failed': bad, 'sanitizer': x.san[:1], 'log': (x.log or b'').decode('latin-1')[:600],
                           'result': x.result, 'trace_tail': x.trace_tail[-4:], 'replay': 'VS_PREFIX=%s h_thr <ini> <res> %d %d calls' % (','.join(map(str, x.prefix)), n, k)})
     t0 = time.time()
-    nexec, complete = S.explore(runner, bound, check, deadline=ck.deadline, max_exec=max_exec)
-    stats.setdefault('campaigns', []).append({'name': name, 'variant': san, 'function_points': fn, 'threads': n, 'calls_each': k, 'preemption_bound': bound, 'executions': nexec,
+    extra = {}
+    if bound == 'hashed':
+        nexec, complete, nst, ned = S.explore_hashed(runner, check, deadline=ck.deadline, max_exec=max_exec)
+        extra = {'state_hashed': True, 'distinct_states': nst, 'distinct_edges': ned}
+        stats['hashed_states'] = stats.get('hashed_states', 0) + nst
+    else:
+        nexec, complete = S.explore(runner, bound, check, deadline=ck.deadline, max_exec=max_exec)
+    stats.setdefault('campaigns', []).append({**extra, 'name': name, 'variant': san, 'function_points': fn, 'threads': n, 'calls_each': k, 'preemption_bound': bound, 'executions': nexec,
                                               'bound_completed': complete, 'wall_s': round(time.time() - t0, 1)})
     if not complete:
         ck.capped = True
@@ -149,6 +155,10 @@ def run(ck):
         ('asan-drop-2x1', va, 'asan', False, CFG_DROP, 2, 1, 1, True),
         ('tsan-2x1', vt, 'tsan', False, CFG_LOG, 2, 1, 2, False),
         ('tsan-drop-2x1', vt, 'tsan', False, CFG_DROP, 2, 1, 1, True),
+        # state-hashed passes: NO preemption bound; alternatives pruned on (thread positions, mutex model, registry list) - see engine/sched.py
+        ('hashed-asan-2x1', va, 'asan', False, CFG_LOG, 2, 1, 'hashed', False),
+        ('hashed-tsan-2x1', vt, 'tsan', False, CFG_LOG, 2, 1, 'hashed', False),
+        ('hashed-asan-2x2', va, 'asan', False, CFG_LOG, 2, 2, 'hashed', False),
         ('fn-asan-2x1', vf, 'asan', True, CFG_LOG, 2, 1, 1, False),
         ('fn-asan-drop-2x1', vf, 'asan', True, CFG_DROP, 2, 1, 1, True),
     ]
@@ -162,6 +172,9 @@ def run(ck):
             ('tsan-3x1', vt, 'tsan', False, CFG_LOG, 3, 1, 1, False),
             ('fn-tsan-2x1', S.build_thr('c09-schedfn-tsan', san='tsan', fn=True), 'tsan', True, CFG_LOG, 2, 1, 1, False),
             ('fn-asan-2x1-b2', vf, 'asan', True, CFG_DROP, 2, 1, 2, True),
+            ('hashed-asan-3x1', va, 'asan', False, CFG_LOG, 3, 1, 'hashed', False),
+            ('hashed-tsan-2x2', vt, 'tsan', False, CFG_LOG, 2, 2, 'hashed', False),
+            ('hashed-asan-2x3', va, 'asan', False, CFG_LOG, 2, 3, 'hashed', False),
         ]
     for p in plan:
         if ck.out_of_time():
@@ -169,7 +182,7 @@ def run(ck):
         total += campaign(ck, p[1], p[0], *p[2:], stats)
     outs = stats.get('outcomes', set())
     ck.assumptions += ['sequentially consistent interleavings; data-race freedom is checked per schedule by the TSan variant', 'libc internals are not scheduling points (never contended under the serialising scheduler)']
-    ck.coverage(states=len(outs), transitions=total, traces_validated_against_impl=total, evaluations=total, distinct_nontrivial=len(outs),
+    ck.coverage(states=len(outs) + stats.get('hashed_states', 0), transitions=total, traces_validated_against_impl=total, evaluations=total, distinct_nontrivial=len(outs),
                 rule='all schedules within the preemption bound per campaign, one process each; distinct = distinct (campaign, record order with thread counts) observed',
-                campaigns=stats.get('campaigns', []), determinism_replays=2,
+                campaigns=stats.get('campaigns', []), determinism_replays=2, scheduler_states_in_hashed_passes=stats.get('hashed_states', 0),
                 samples=[{'campaign': c['name'], 'executions': c['executions'], 'bound': c['preemption_bound'], 'complete': c['bound_completed']} for c in stats.get('campaigns', [])][:6] or [{'note': 'none'}])
